@@ -121,7 +121,52 @@ func c19queuedBig(c *core.Ctx) {
 	c.NonTrivial(core.Mix(191, uint64(k)))
 }
 
+// c19queuedTyped: the queued receivers over other element types (size 0, 40 and 4800 bytes).
+func c19queuedTyped[T comparable](c *core.Ctx, tname string, mk func(i int) T) bool {
+	for _, capa := range []int{1, 3, 10} {
+		for fill := 0; fill <= capa; fill++ {
+			for _, limit := range []int{0, 1, fill, capa + 2} {
+				ch := make(chan T, capa)
+				for i := 0; i < fill; i++ {
+					ch <- mk(i + 1)
+				}
+				want := fill
+				if limit < want {
+					want = limit
+				}
+				got := chans.RecvQueued(ch, limit)
+				if len(got) != want {
+					c.Violate("RecvQueued:count["+tname+" elements]", fmt.Sprintf("RecvQueued(cap=%d fill=%d limit=%d) over %s elements returned %d values, expected %d", capa, fill, limit, tname, len(got), want), nil)
+					return false
+				}
+				for i, v := range got {
+					if v != mk(i+1) {
+						c.Violate("RecvQueued:order-or-invented["+tname+" elements]", fmt.Sprintf("RecvQueued over %s elements: value %d is wrong", tname, i), nil)
+						return false
+					}
+				}
+				buf := make([]T, limit)
+				n := chans.RecvQueuedFull(ch, buf)
+				if rest := fill - want; n != min(rest, limit) || len(ch) != rest-n {
+					c.Violate("RecvQueuedFull:count["+tname+" elements]", fmt.Sprintf("RecvQueuedFull over %s elements returned %d with %d queued and a buffer of %d", tname, n, rest, limit), nil)
+					return false
+				}
+				c.Count("queued_calls", 2)
+			}
+		}
+	}
+	c.Count("queued_element_type_"+tname, 1)
+	return true
+}
+
 func c19queued(c *core.Ctx) {
+	if c.Index == 0 {
+		if !c19queuedTyped(c, "0-byte", func(i int) struct{} { return struct{}{} }) ||
+			!c19queuedTyped(c, "40-byte", func(i int) [5]int64 { return [5]int64{int64(i), 4: int64(-i)} }) ||
+			!c19queuedTyped(c, "4800-byte", func(i int) [600]int64 { return [600]int64{int64(i), 599: int64(-i)} }) {
+			return
+		}
+	}
 	if c.Index >= 48 {
 		c19queuedBig(c)
 		return
